@@ -1,9 +1,17 @@
 (* Properties/C53.v — Decoders of untrusted input never crash, hang or
-   over-allocate: the part that is provable on the decoders modelled by this
-   batch (pkt-line, sideband, variable-length integers, the line-oriented packp
-   messages).  PARTIAL by design: unmodelled library code (zlib, bufio, gcfg,
-   goroutine plumbing) and the decoders owned by other batches are exercised by
-   the harness only.  Proofs live in Proofs/C34*.v and Proofs/C53.v. *)
+   over-allocate.  For every decoder that has a model: C53_<dec>_total (the
+   model never reports out-of-fuel on ANY input with the fuel it is given; where
+   the model merges fuel exhaustion with a rejection: more fuel never changes
+   the answer), C53_<dec>_no_oob (index / slice expressions are in range under
+   the code's own checks, boundary index == table length rejected),
+   C53_<dec>_alloc (what is built is bounded by k*|input| + c).
+   First part: pkt-line, sideband, varints, packp line counts (Proofs/C34*.v,
+   Proofs/C53.v).  Second part: the decoders modelled by other properties
+   (Proofs/C53Idx, C53Delta, C53Tree, C53Index, C53Pack, C53Rev, C53Graph,
+   C53ObjFile, C53Lines; wildmatch from Proofs/C49Total).  PARTIAL by design:
+   unmodelled library code (zlib, bufio, gcfg, goroutine plumbing), the
+   packfile.Packfile read paths and the refname / capability-list / protocol v2
+   scanners are exercised by the harness only. *)
 From Coq Require Import List NArith ZArith Bool.
 From GoGit Require Import Base.Out Gen.C34 Gen.C53 Model.PktLine Model.Sideband Model.Packp Model.C53Varint
   Proofs.C34Stream Proofs.C34Hex Proofs.C34Pkt Proofs.C34Sideband Proofs.C35Base Proofs.C53.
@@ -93,6 +101,297 @@ Proof.
 Qed.
 Print Assumptions C53_varint_consumed.
 
+(* ====================================================================== *)
+(* Decoders modelled by OTHER properties (models imported, never copied):  *)
+(* Model/Idx.v (C10), Delta.v (C06), TreeObj.v (C04), IndexFile.v (C12),   *)
+(* PackParse.v (C08/C09), Gitignore.v (C49), Revision.v (C47),             *)
+(* CommitGraph.v (C51), ObjFile.v (C01), ObjLines.v / Ident.v (C02).       *)
+(* Names are qualified: several models define res / Ok / Err / slice.      *)
+(* ====================================================================== *)
+From GoGit Require Model.PackBytes Model.Idx Model.Delta Spec.GitDelta Model.TreeObj Model.IndexFile Model.PackParse
+  Model.Gitignore Model.Revision Model.CommitGraph Model.ObjFile Model.ObjLines Model.Ident.
+From GoGit Require Proofs.C06Apply Proofs.C49Total Proofs.C53Idx Proofs.C53Delta Proofs.C53Tree Proofs.C53Index Proofs.C53Pack
+  Proofs.C53Rev Proofs.C53Graph Proofs.C53ObjFile Proofs.C53Lines.
+
+(* ---- pack index (.idx v2 / .rev): MemoryIndex, LazyIndex, mmap.PackScanner ---- *)
+
+(* every binary search of the three readers ends within the fuel of the model
+   (1 + bit size of the interval) on EVERY index structure, sorted or not:
+   no lookup, iterator or prefix scan answers "out of fuel" *)
+Theorem C53_idx_total : forall hs m st h o prefix (s : Idx.lazyidx) want (sc : Idx.scanner) w,
+  fst (Idx.mem_find_offset hs m st h) <> Idx.Err Idx.EFuel /\ Idx.mem_find_crc hs m h <> Idx.Err Idx.EFuel /\
+  Idx.mem_contains hs m h <> Idx.Err Idx.EFuel /\
+  fst (Idx.mem_find_hash hs m st o) <> Idx.Err Idx.EFuel /\ snd (Idx.mem_entries hs m) <> Some Idx.EFuel /\
+  snd (Idx.mem_by_offset hs m) <> Some Idx.EFuel /\ snd (Idx.mem_prefix hs m prefix) <> Some Idx.EFuel /\
+  Idx.lazy_contains hs s h <> Idx.Err Idx.EFuel /\ Idx.lazy_find_offset hs s h <> Idx.Err Idx.EFuel /\
+  Idx.lazy_find_crc hs s h <> Idx.Err Idx.EFuel /\
+  Idx.lazy_find_hash hs s want <> Idx.Err Idx.EFuel /\ snd (Idx.lazy_entries hs s) <> Some Idx.EFuel /\
+  snd (Idx.lazy_by_offset hs s) <> Some Idx.EFuel /\ snd (Idx.lazy_prefix hs s prefix) <> Some Idx.EFuel /\
+  Idx.scan_find_offset sc h <> Idx.Err Idx.EFuel /\ Idx.scan_find_hash hs sc w <> Idx.Err Idx.EFuel.
+Proof. exact C53Idx.c53_idx_total. Qed.
+Print Assumptions C53_idx_total.
+
+(* the 64-bit offset table.  MemoryIndex.getOffset: the table has |Offset64|/8
+   slots; a slot index EQUAL TO (or above) that number is ErrMalformedIdxFile and
+   is not read; an accepted slot lies wholly inside the table.  LazyIndex.offset
+   and PackScanner.offset likewise against the slot count / the trailer start. *)
+Theorem C53_idx_no_oob :
+  (forall m b i, let ofs := PackBytes.get32 (PackBytes.slice (Idx.b_off32 b) (4 * i) 4) in
+     N.land ofs Idx.O64MASK <> 0%N -> (PackBytes.blen (Idx.m_off64 m) / 8 <= N.ldiff ofs Idx.O64MASK)%N ->
+     Idx.mem_get_offset m b i = Idx.Err Idx.EMalformed) /\
+  (forall m b i o, let ofs := PackBytes.get32 (PackBytes.slice (Idx.b_off32 b) (4 * i) 4) in
+     Idx.mem_get_offset m b i = Idx.Ok o -> N.land ofs Idx.O64MASK <> 0%N ->
+     (N.ldiff ofs Idx.O64MASK < PackBytes.blen (Idx.m_off64 m) / 8)%N /\
+     (8 * N.ldiff ofs Idx.O64MASK + 8 <= PackBytes.blen (Idx.m_off64 m))%N) /\
+  (forall s pos b, PackBytes.read_at (Idx.l_file s) (Idx.l_off32 s + pos * Idx.L_OFF32) Idx.L_OFF32 = Some b ->
+     N.land (PackBytes.get32 b) Idx.L_MASK <> 0%N -> (Idx.l_count64 s <= N.ldiff (PackBytes.get32 b) Idx.L_MASK)%N ->
+     Idx.lazy_offset s pos = Idx.Err Idx.EMalformed) /\
+  (forall s pos, let start := (Idx.s_off32 s + pos * Idx.S_OFF32)%N in
+     let off32 := PackBytes.get32 (PackBytes.slice (Idx.s_idx s) start Idx.S_OFF32) in
+     (start + Idx.S_OFF32 <= PackBytes.blen (Idx.s_idx s))%N -> N.land off32 Idx.S_MASK <> 0%N ->
+     (Idx.s_trailer s < Idx.s_off64 s + N.ldiff off32 Idx.S_MASK * Idx.S_OFF64 + Idx.S_OFF64)%N ->
+     Idx.scan_offset s pos = Idx.Err Idx.EMalformed).
+Proof. exact C53Idx.c53_idx_no_oob. Qed.
+Print Assumptions C53_idx_no_oob.
+
+(* Decoder.Decode: every bucket of a decoded index is consistent (|names| = n*hs,
+   |offset32| = |crc32| = 4n), and all the tables it allocated fit in the file:
+   allocation <= |file| whatever object count the fanout claims *)
+Theorem C53_idx_alloc : forall hs Hsz file m, Idx.decode hs Hsz file = Idx.Ok m ->
+  Forall (C53Idx.bucket_ok hs) (Idx.m_bk m) /\
+  (C53Idx.tables_len (Idx.m_bk m) + PackBytes.blen (Idx.m_off64 m) + PackBytes.blen (Idx.m_pack m) + PackBytes.blen (Idx.m_sum m) + 1032
+     <= PackBytes.blen file)%N /\
+  List.length (Idx.m_fanout m) = Idx.NFANOUT.
+Proof. exact C53Idx.decode_consistent. Qed.
+Print Assumptions C53_idx_alloc.
+
+(* ---- delta appliers: patchDelta, ReaderFromDelta, patchDeltaWriter ---- *)
+Theorem C53_delta_total : forall bb src d,
+  Delta.patch_delta src d <> Delta.Err Delta.EFuel /\ Delta.patch_delta_wrapper src d <> Delta.Err Delta.EFuel /\
+  Delta.reader_from_delta src d <> Delta.Err Delta.EFuel /\ Delta.patch_delta_writer bb src d <> Delta.Err Delta.EFuel.
+Proof. exact C53Delta.c53_delta_total. Qed.
+Print Assumptions C53_delta_total.
+
+(* the buffer applier with Go's slice expressions made partial (None = slice
+   bounds out of range = panic) never takes the None branch *)
+Theorem C53_delta_no_oob : forall src d, C06Apply.bytes_ok d = true ->
+  C53Delta.patch_delta_chk src d = Some (Delta.patch_delta src d).
+Proof. exact C53Delta.patch_delta_no_oob. Qed.
+Print Assumptions C53_delta_no_oob.
+
+(* a successful application returns exactly the declared target size, which is at most 2^24 per delta byte *)
+Theorem C53_delta_alloc : forall src d out, C06Apply.bytes_ok d = true -> Delta.patch_delta src d = Delta.Ok out ->
+  C06Apply.target_size d = Some (Delta.len out) /\ (Delta.len out <= 16777216 * Delta.len d)%N.
+Proof. exact C53Delta.patch_delta_alloc. Qed.
+Print Assumptions C53_delta_alloc.
+
+(* ---- Tree.Decode ---- *)
+Theorem C53_tree_total : forall hsz b, TreeObj.decode hsz b <> inl TreeObj.DFuel.
+Proof. exact C53Tree.decode_total. Qed.
+Print Assumptions C53_tree_total.
+
+Theorem C53_tree_no_oob : forall hsz b l, TreeObj.decode hsz b = inr l ->
+  Forall (fun e => List.length (TreeObj.t_hash e) = hsz /\ TreeObj.t_name e <> []) l.
+Proof. exact C53Tree.decode_no_oob. Qed.
+Print Assumptions C53_tree_no_oob.
+
+Theorem C53_tree_alloc : forall hsz b l, TreeObj.decode hsz b = inr l ->
+  (C53Tree.tsize hsz l <= List.length b)%nat /\ (List.length l * (hsz + 4) <= List.length b)%nat.
+Proof. exact C53Tree.decode_alloc. Qed.
+Print Assumptions C53_tree_alloc.
+
+(* ---- index (DIRC) decoder ---- *)
+Theorem C53_index_total : forall hs H skip b, IndexFile.decode hs H skip b <> IndexFile.Err IndexFile.EFuel.
+Proof. exact C53Index.decode_total. Qed.
+Print Assumptions C53_index_total.
+
+(* index v4 prefix compression: strip length N > |previous name| is rejected (N = |prev| + 1 included),
+   an accepted N is <= |prev| and the name is prev[:|prev|-N] ++ suffix *)
+Theorem C53_index_no_oob :
+  (forall ln b l b1, IndexFile.read_varint b = IndexFile.Ok (l, b1) -> (N.of_nat (List.length ln) < l)%N ->
+     IndexFile.read_name4 (Some ln) b = IndexFile.Err IndexFile.EMalformed) /\
+  (forall ln b nm r, IndexFile.read_name4 (Some ln) b = IndexFile.Ok (nm, r) ->
+     exists l b1 suffix, IndexFile.read_varint b = IndexFile.Ok (l, b1) /\ (N.to_nat l <= List.length ln)%nat /\
+       nm = firstn (List.length ln - N.to_nat l) ln ++ suffix).
+Proof. split; [exact C53Index.read_name4_strip_rejected|exact C53Index.read_name4_strip_in_range]. Qed.
+Print Assumptions C53_index_no_oob.
+
+(* whatever the 32-bit entry count of the header, the decoded entries fit the input: 42+hs bytes each *)
+Theorem C53_index_alloc : forall hs ver count b3 es b4,
+  IndexFile.read_entries hs (S (List.length b3)) ver count None b3 [] = IndexFile.Ok (es, b4) ->
+  (List.length es * (42 + hs) + List.length b4 <= List.length b3)%nat /\
+  Forall (fun e => List.length (IndexFile.e_hash e) = hs) es.
+Proof. intros hs. exact (C53Index.decode_entries_bound hs (fun b => b)). Qed.
+Print Assumptions C53_index_alloc.
+
+(* ---- pack scanner / parser (option-valued model: fuel stability) ---- *)
+Theorem C53_pack_total :
+  (forall first r g, (11 <= g)%nat ->
+     (let size := N.land first 15 in if (N.land first 128 =? 0)%N then Some (size, r) else PackParse.size_cont g r size 4)
+     = PackParse.entry_size first r) /\
+  (forall r g, (10 <= g)%nat ->
+     match r with
+     | [] => None
+     | c :: r' => if (N.land c 128 =? 0)%N then Some (N.land c 127, r') else PackParse.vwint_cont g r' (N.land c 127)
+     end = PackParse.vwint r) /\
+  (forall r g, (10 <= g)%nat -> PackParse.leb128 g r 0 0 = PackParse.leb128 10 r 0 0) /\
+  (forall src f d remaining out g, (List.length d < f)%nat -> (f <= g)%nat ->
+     PackParse.delta_loop g src d remaining out = PackParse.delta_loop f src d remaining out) /\
+  (forall hs Hsz inflate crc32 pack count g, (S (List.length pack) <= g)%nat ->
+     PackParse.scan_entries hs Hsz inflate crc32 g pack count 0 12 [] =
+     PackParse.scan_entries hs Hsz inflate crc32 (S (List.length pack)) pack count 0 12 []).
+Proof. exact C53Pack.c53_pack_total. Qed.
+Print Assumptions C53_pack_total.
+
+(* an entry is only found at a position inside the pack *)
+Theorem C53_pack_no_oob : forall hs Hsz inflate crc32 pack pos oh next,
+  PackParse.scan_entry hs Hsz inflate crc32 pack pos (skipn (N.to_nat pos) pack) = Some (oh, next) -> (pos < PackBytes.blen pack)%N.
+Proof. exact C53Pack.scan_entry_in_pack. Qed.
+Print Assumptions C53_pack_no_oob.
+
+(* the 32-bit object count of the header cannot make the scanner return more entries than the pack has bytes *)
+Theorem C53_pack_alloc : forall hs Hsz inflate crc32 pack es sum,
+  PackParse.scan_pack hs Hsz inflate crc32 pack = Some (es, sum) -> (List.length es + 12 <= List.length pack)%nat.
+Proof. exact C53Pack.scan_pack_alloc. Qed.
+Print Assumptions C53_pack_alloc.
+
+(* ---- wildmatch (gitignore) ---- *)
+Theorem C53_wild_total : forall flags p t, Gitignore.dowild (Gitignore.wm_fuel p) flags None p t <> Gitignore.WFuel.
+Proof. intros. apply C49Total.wildmatch_total. Qed.
+Print Assumptions C53_wild_total.
+
+(* the bracket-class parser never runs out of fuel and hands back a strictly shorter pattern:
+   it cannot read past the end of an unterminated class *)
+Theorem C53_wild_no_oob : forall cf tch q,
+  fst (Gitignore.bracket cf tch q) <> Gitignore.CFuel /\
+  (forall m r n, Gitignore.bracket cf tch q = (Gitignore.CDone m r, n) -> (List.length r < List.length q)%nat).
+Proof. exact C49Total.bracket_ok. Qed.
+Print Assumptions C53_wild_no_oob.
+
+(* ---- revision parser ---- *)
+Theorem C53_rev_total :
+  (forall s g, (S (S (List.length s)) <= g)%nat -> Revision.parse_loop g s [] = Revision.parse s) /\
+  (forall f s prev buf g, (List.length s < f)%nat -> (f <= g)%nat -> Revision.parse_ref g s prev buf = Revision.parse_ref f s prev buf) /\
+  (forall f s start re negate g, (List.length s < f)%nat -> (f <= g)%nat ->
+     Revision.caret_braces g s start re negate = Revision.caret_braces f s start re negate).
+Proof. exact C53Rev.c53_rev_total. Qed.
+Print Assumptions C53_rev_total.
+
+Theorem C53_rev_no_oob : forall s t lit r, Revision.scan s = (t, lit, r) ->
+  (List.length r <= List.length s)%nat /\ (s <> [] -> (List.length r < List.length s)%nat).
+Proof. exact C53Rev.scan_len. Qed.
+Print Assumptions C53_rev_no_oob.
+
+Theorem C53_rev_alloc : forall s l, Revision.parse s = Revision.POk l -> (List.length l <= List.length s)%nat.
+Proof. exact C53Rev.parse_alloc. Qed.
+Print Assumptions C53_rev_alloc.
+
+(* ---- commit-graph file reader ---- *)
+Theorem C53_graph_total :
+  (forall file off pos cnt g, (S (List.length file) <= g)%nat ->
+     CommitGraph.read_edges file g off pos cnt = CommitGraph.read_edges file (S (List.length file)) off pos cnt) /\
+  (forall file fi h g, CommitGraph.open_file file = CommitGraph.Ok fi -> (40 <= g)%nat ->
+     match h with
+     | [] => CommitGraph.Er CommitGraph.ENotFound
+     | b0 :: _ => CommitGraph.bsearch file fi h g
+                    (if (b0 =? 0)%N then 0%N else nth (N.to_nat b0 - 1) (CommitGraph.f_fanout fi) 0%N)
+                    (nth (N.to_nat b0) (CommitGraph.f_fanout fi) 0%N)
+     end = CommitGraph.index_by_hash file fi h).
+Proof. exact C53Graph.c53_graph_total. Qed.
+Print Assumptions C53_graph_total.
+
+(* an index equal to the table length is rejected and not read: commit index, parent index (in a split graph:
+   a parent index below [min] is delegated to the parent layers [below], one >= min + ncommits is rejected),
+   EDGE position; a successful lookup used only indices below the count and returned 20-byte ids *)
+Theorem C53_graph_no_oob :
+  (forall below min file fi idx, (CommitGraph.ncommits fi <= idx)%N ->
+     CommitGraph.get_commit_data_in below min file fi idx = CommitGraph.Er CommitGraph.ENotFound) /\
+  (forall below min file fi idxs i, In i idxs -> (min + CommitGraph.ncommits fi <= i)%N ->
+     exists e, CommitGraph.hashes_of below min file fi idxs = CommitGraph.Er e) /\
+  (forall below min file fi i r, (i < min)%N ->
+     CommitGraph.hashes_of below min file fi (i :: r) =
+     match below i with
+     | CommitGraph.Er e => CommitGraph.Er e
+     | CommitGraph.Ok h => match CommitGraph.hashes_of below min file fi r with
+                           | CommitGraph.Ok l => CommitGraph.Ok (h :: l) | CommitGraph.Er e => CommitGraph.Er e end
+     end) /\
+  (forall file f off pos cnt, (cnt <= pos)%Z -> CommitGraph.read_edges file (S f) off pos cnt = CommitGraph.Er CommitGraph.EMalformed) /\
+  (forall below min file fi idx d, CommitGraph.get_commit_data_in below min file fi idx = CommitGraph.Ok d ->
+     (idx < CommitGraph.ncommits fi)%N /\ List.length (CommitGraph.d_tree d) = 20%nat /\
+     Forall (fun i => (i < min + CommitGraph.ncommits fi)%N) (CommitGraph.d_pidx d) /\
+     List.length (CommitGraph.d_phash d) = List.length (CommitGraph.d_pidx d) /\
+     ((forall i h, below i = CommitGraph.Ok h -> List.length h = 20%nat) ->
+      Forall (fun h => List.length h = 20%nat) (CommitGraph.d_phash d)) /\
+     (4 * Z.of_nat (List.length (CommitGraph.d_pidx d)) <= Z.of_nat (List.length file) + 4)%Z) /\
+  (forall file fi idx d, CommitGraph.get_commit_data file fi idx = CommitGraph.Ok d ->
+     (idx < CommitGraph.ncommits fi)%N /\ Forall (fun i => (i < CommitGraph.ncommits fi)%N) (CommitGraph.d_pidx d) /\
+     Forall (fun h => List.length h = 20%nat) (CommitGraph.d_phash d)).
+Proof. exact C53Graph.c53_graph_no_oob. Qed.
+Print Assumptions C53_graph_no_oob.
+
+Theorem C53_graph_alloc : forall file fi, CommitGraph.open_file file = CommitGraph.Ok fi ->
+  List.length (CommitGraph.f_fanout fi) = 256%nat /\ Forall (fun v => (v <= 2147483647)%N) (CommitGraph.f_fanout fi).
+Proof. exact C53Graph.open_file_fanout. Qed.
+Print Assumptions C53_graph_alloc.
+
+(* ---- loose object header ---- *)
+Theorem C53_objfile_total : forall raw t n rest, ObjFile.read_header raw = ObjFile.Ok (t, n, rest) ->
+  exists ty sz, raw = ty ++ 32%N :: sz ++ 0%N :: rest /\
+    (List.length ty + List.length sz + 2 <= ObjFile.max_header_len)%nat /\
+    ObjFile.parse_type ty = Some t /\ ObjFile.parse_int64 sz = Some n.
+Proof. exact C53ObjFile.read_header_bounded. Qed.
+Print Assumptions C53_objfile_total.
+
+Theorem C53_objfile_no_oob : forall raw t n rest, ObjFile.read_header raw = ObjFile.Ok (t, n, rest) ->
+  (- 9223372036854775808 <= n < 9223372036854775808)%Z /\ (List.length rest <= List.length raw)%nat.
+Proof. exact C53ObjFile.read_header_size_int64. Qed.
+Print Assumptions C53_objfile_no_oob.
+
+(* ---- commit / tag line scanner and Signature.Decode ---- *)
+Theorem C53_lines_total : forall b, concat (ObjLines.split_lines b) = b /\ (List.length (ObjLines.split_lines b) <= List.length b)%nat.
+Proof. intros b. split; [apply C53Lines.split_lines_concat|apply C53Lines.split_lines_count]. Qed.
+Print Assumptions C53_lines_total.
+
+Theorem C53_ident_no_oob : forall b op cl,
+  ObjLines.last_index_of Ident.LT b = Some op -> ObjLines.last_index_of Ident.GT b = Some cl -> Nat.ltb cl op = false ->
+  (S op <= cl)%nat /\ (cl < List.length b)%nat.
+Proof. exact C53Lines.decode_ident_brackets. Qed.
+Print Assumptions C53_ident_no_oob.
+
+Theorem C53_ident_alloc : forall b,
+  (List.length (Ident.id_name (Ident.decode_ident b)) <= List.length b)%nat /\
+  (List.length (Ident.id_email (Ident.decode_ident b)) <= List.length b)%nat.
+Proof. exact C53Lines.decode_ident_alloc. Qed.
+Print Assumptions C53_ident_alloc.
+
+(* ---- pack parser: depth-first delta resolution (visit) ---- *)
+From GoGit Require Proofs.C53Visit Proofs.C53Reflog Model.Reflog.
+
+(* every nested visit follows a delta that has just been marked done: with fuel above the number of
+   undone deltas, more fuel never changes the answer; the resolver's fuel |entries|+1 is such a fuel *)
+Theorem C53_pack_visit_total :
+  (forall hs Hsz ext refs ofss f pid poff s g, (C53Visit.undone refs ofss s < f)%nat -> (f <= g)%nat ->
+     PackParse.visit hs Hsz g ext refs ofss pid poff s = PackParse.visit hs Hsz f ext refs ofss pid poff s) /\
+  (forall hs Hsz ext (es : list PackParse.ohdr) pid poff s g,
+     let refs := filter (fun e => match PackParse.oh_type e with PackParse.TRef => true | _ => false end) es in
+     let ofss := filter (fun e => match PackParse.oh_type e with PackParse.TOfs => true | _ => false end) es in
+     (S (List.length es) <= g)%nat ->
+     PackParse.visit hs Hsz g ext refs ofss pid poff s = PackParse.visit hs Hsz (S (List.length es)) ext refs ofss pid poff s).
+Proof. split; [exact C53Visit.visit_stable|exact C53Visit.resolve_visit_stable]. Qed.
+Print Assumptions C53_pack_visit_total.
+
+(* ---- revfile.Decode ---- *)
+From GoGit Require Proofs.C53RevFile.
+Theorem C53_revfile_alloc : forall Hsz file count pack es, Idx.rev_decode Hsz file count pack = Idx.Ok es ->
+  N.of_nat (List.length es) = count /\ (4 * count + 52 <= PackBytes.blen file)%N.
+Proof. exact C53RevFile.rev_decode_alloc. Qed.
+Print Assumptions C53_revfile_alloc.
+
+(* ---- reflog ---- *)
+Theorem C53_reflog_alloc : forall file l, Reflog.decode file = Some l -> (List.length l <= List.length file)%nat.
+Proof. exact C53Reflog.decode_alloc. Qed.
+Print Assumptions C53_reflog_alloc.
+
 (* ---------- non-vacuity ---------- *)
 From Coq Require Import String.
 Example C53_ex_leb :
@@ -107,4 +406,27 @@ Proof. vm_compute. repeat split. Qed.
 Example C53_ex_lines :
   s_items (src_of (scan_all [unhex "303030366162303030303030303666"%string])) = [(6%Z, [97%N; 98%N]); (0%Z, [])] /\
   s_fin (src_of (scan_all [unhex "303030366162303030303030303666"%string])) = Some PEunexpected.
+Proof. vm_compute. split; reflexivity. Qed.
+
+(* the boundary of the 64-bit table: one slot (8 bytes); slot 0 is read, slot 1 (== table length) is rejected *)
+Example C53_ex_idx_slot :
+  let m := Idx.mkM [] [] [] (unhex "0000000100000000"%string) [] [] in
+  Idx.mem_get_offset m (Idx.mkB [] (unhex "80000000"%string) []) 0 = Idx.Ok 4294967296%N /\
+  Idx.mem_get_offset m (Idx.mkB [] (unhex "80000001"%string) []) 0 = Idx.Err Idx.EMalformed /\
+  Idx.mem_get_offset (Idx.mkM [] [] [] [] [] []) (Idx.mkB [] (unhex "80000000"%string) []) 0 = Idx.Err Idx.EMalformed.
+Proof. vm_compute. repeat split. Qed.
+
+(* copy-from-source commands ending at |src| (accepted) and one byte past it (rejected, not sliced) *)
+Example C53_ex_delta_boundary :
+  Delta.patch_delta (unhex "616263"%string) (unhex "03039003"%string) = Delta.Ok (unhex "616263"%string) /\
+  Delta.patch_delta (unhex "616263"%string) (unhex "0302910102"%string) = Delta.Ok (unhex "6263"%string) /\
+  Delta.patch_delta (unhex "616263"%string) (unhex "0303910103"%string) = Delta.Err Delta.EInvalid /\
+  C53Delta.patch_delta_chk (unhex "616263"%string) (unhex "0303910103"%string) = Some (Delta.Err Delta.EInvalid).
+Proof. vm_compute. repeat split. Qed.
+
+(* a tree whose last object id is one byte short is malformed, not a short id *)
+Example C53_ex_tree_short_id :
+  TreeObj.decode 4 (unhex "3130303634342061000102030431303037353520620001020304"%string) =
+    inr [TreeObj.mkT 33188 [97%N] [1;2;3;4]%N; TreeObj.mkT 33261 [98%N] [1;2;3;4]%N] /\
+  TreeObj.decode 4 (unhex "31303036343420610001020304313030373535206200010203"%string) = inl TreeObj.DMalformed.
 Proof. vm_compute. split; reflexivity. Qed.
